@@ -1,2 +1,417 @@
+"""C16 - both clients treat the feed as a byte stream; survive malformed input and disconnects.
+
+Fault enumeration on the real binaries: all cut sets (<=1 quick, <=2 thorough) of a 3-line feed with a read-timeout
+gap at every cut, a malformed-line alphabet at every inter-line position in two timings, all disconnect points
+(after k lines, mid-line) without and with --retry-tcp."""
+
+import itertools
+import json
+import re
+
+import e4lib
+import e4screen
+from e4lib import hexs
+
+F3 = '1b5b31337e'
+RADAR_SIZE = [100, 30]
+SENT_ICAO = 'c0ffee'
+
+
+class Feed:
+    def __init__(self):
+        specs = [
+            {'kind': 'ident', 'icao': 'a00001', 'callsign': 'AAA'},
+            {'kind': 'ident', 'icao': 'a00002', 'callsign': 'BBB'},
+            {'kind': 'pos', 'icao': 'a00001', 'lat': 35.2, 'lon': -80.0, 'alt': 10000, 'odd': 0},
+            {'kind': 'ident', 'icao': 'a00003', 'callsign': 'CCC'},     # carrier of the CRLF / missing-* letters
+            {'kind': 'df11', 'icao': SENT_ICAO},                           # 1090 sentinel (not tracked by radar)
+        ]
+        ls = e4lib.mkfeed(specs)
+        self.L = [(x + '\n').encode() for x in ls[:3]]
+        self.L4 = ls[3]
+        self.sent = (ls[4] + '\n').encode()
+        self.payload = [x[1:-1].lower() for x in ls[:3]]
+        self.sent_payload = ls[4][1:-1].lower()
+        self.feed = b''.join(self.L)
+        assert len(self.feed) == 93, len(self.feed)
+        self.names = {self.payload[0]: 'L1', self.payload[1]: 'L2', self.payload[2]: 'L3', self.sent_payload: 'S'}
+
+    def malformed(self):
+        """-> [(name, bytes, ambiguous_valid_line_or_None)]"""
+        l4 = self.L4.encode()
+        h = l4[1:-1]
+        return [
+            ('empty', b'\n', None),
+            ('star', b'*\n', None),
+            ('semi', b';\n', None),
+            ('star-semi', b'*;\n', None),
+            ('star0semi', b'*0;\n', None),
+            ('x', b'x\n', None),
+            ('nonhex', b'*zzzzzzzzzzzzzz;\n', None),
+            ('oddhex', b'*8d4840d6202cc;\n', None),
+            ('8d', b'*8d;\n', None),
+            ('utf8@0', 'é'.encode() + h + b';\n', None),
+            ('utf8@1', b'*' + 'é'.encode() + h + b';\n', None),
+            ('utf8@len-3', b'*' + h + 'é'.encode() + b'\n', None),
+            ('badutf8', b'*8d\xff40d6;\n', None),
+            ('zero7', b'*' + b'00' * 7 + b';\n', None),
+            ('zero14', b'*' + b'00' * 14 + b';\n', None),
+            ('df1', b'*08' + b'11' * 6 + b';\n', None),
+            ('df22', b'*b0' + b'11' * 13 + b';\n', None),
+            ('long300', b'*' + b'ab' * 148 + b';\n', None),
+            ('crlf', l4 + b'\r\n', l4 + b'\n'),
+            ('nostar', l4[1:] + b'\n', None),
+        ]
+
+
+WELL_FORMED = re.compile(rb'^\*([0-9a-fA-F][0-9a-fA-F])*;$')
+
+
+def well_formed_lines(feed_bytes):
+    """R-line: the complete lines of a feed that are syntactically `*<hex>;` (whether they decode is left to the
+    real decoder inside vh feed2table)"""
+    return [ln for ln in feed_bytes.split(b'\n')[:-1] if WELL_FORMED.match(ln)]
+
+
+def table_expect(feed_bytes):
+    t = e4lib.feed2table(b''.join(ln + b'\n' for ln in well_formed_lines(feed_bytes)))
+    return {'n': t['len'], 'msgs': {r['icao']: r['msgs'] for r in t['rows']}}
+
+
+# ---------------------------------------------------------------------------------------------
+# script builders
+def s1090(key, sends, expect_names, fd, close=False, allow_unknown=False, nogap=False, close_gap=False):
+    """sends: list of byte segments, a read-timeout gap between consecutive ones (nogap: back-to-back sends)"""
+    steps = []
+    for i, seg in enumerate(sends):
+        if i and not nogap:
+            steps.append({'op': 'gap'})
+        steps.append({'op': 'send', 'hex': hexs(seg)})
+    if close and close_gap:
+        steps.append({'op': 'gap'})
+    if close:
+        steps.append({'op': 'close'})
+        steps.append({'op': 'settle', 'ms': 300})
+    else:
+        steps.append({'op': 'gap'})
+        steps.append({'op': 'send', 'hex': hexs(fd.sent)})
+        steps.append({'op': 'expect', 'line': fd.sent_payload, 'after': fd.block_len[fd.sent_payload] - 1})
+    return {'binary': '1090', 'oracle': 'c16_1090', 'key': key, 'argv': [], 'steps': steps,
+            'segments': [hexs(s) for s in sends], 'names': fd.names, 'blocks': fd.blocks,
+            'expect_echo': expect_names + ([] if close else ['S']), 'allow_unknown': allow_unknown,
+            'expected': 'echo sequence == %s (each complete line once, in order, followed by its rendering); '
+                        'process alive' % ','.join(expect_names + ([] if close else ['S']))}
+
+
+def sradar(key, sends, n_lines_last, expect_tables, retry=False, disconnect=None, after=None, n_after=0,
+           partial=None, partial_gap=False, nogap=False):
+    """sends: segments with a gap between (nogap: back-to-back sends instead); disconnect: None | 'exit' | 'retry';
+    partial: bytes of an incomplete line sent right before the close (partial_gap: a read timeout elapses first);
+    after: bytes sent after the reconnect"""
+    steps = [{'op': 'keys', 'hex': F3}, {'op': 'sync', 'n': 3}]
+    for i, seg in enumerate(sends):
+        if i and not nogap:
+            steps.append({'op': 'gap'})
+        steps.append({'op': 'send', 'hex': hexs(seg)})
+    steps.append({'op': 'sync', 'n': n_lines_last + 3})
+    steps.append({'op': 'snap', 'name': 'table'})
+    argv = list(e4lib.BASE_ARGV)
+    if retry:
+        argv.append('--retry-tcp')
+    if disconnect is None:
+        steps.append({'op': 'quit', 'hex': '71'})
+    else:
+        if partial:
+            steps.append({'op': 'send', 'hex': hexs(partial)})
+            if partial_gap:
+                steps.append({'op': 'gap'})
+        steps.append({'op': 'close'})
+        if disconnect == 'exit':
+            steps.append({'op': 'wait_exit'})
+        else:
+            steps.append({'op': 'accept'})
+            steps.append({'op': 'sync', 'n': 3})
+            if after:
+                steps.append({'op': 'send', 'hex': hexs(after)})
+            steps.append({'op': 'sync', 'n': n_after + 3})
+            steps.append({'op': 'snap', 'name': 'table2'})
+            steps.append({'op': 'quit', 'hex': '71'})
+    return {'binary': 'radar', 'oracle': 'c16_radar', 'key': key, 'argv': argv, 'size': RADAR_SIZE, 'filler': False,
+            'steps': steps, 'segments': [hexs(s) for s in sends], 'expect_tables': expect_tables,
+            'disconnect': disconnect,
+            'expected': 'Airplanes(n) and per-aircraft Msgs == tracker library fed with the complete well-formed lines: %s; '
+                        'heartbeats keep coming; %s' % (json.dumps(expect_tables),
+                                                        'exit 0 with the terminal restored after the disconnect' if disconnect == 'exit'
+                                                        else ('reconnect, keep the aircraft, then exit 0 on quit' if disconnect else
+                                                              'exit 0 with the terminal restored on quit'))}
+
+
+# ---------------------------------------------------------------------------------------------
+# judges
+def parse_echo(script, stdout):
+    names = script['names']
+    blocks = script['blocks']
+    seq = []
+    i = 0
+    while i < len(stdout):
+        ln = stdout[i]
+        if ln in names:
+            blk = blocks.get(ln, [])
+            ok = stdout[i + 1:i + 1 + len(blk)] == blk
+            seq.append(names[ln] if ok else names[ln] + '!render')
+            i += 1 + (len(blk) if ok else 0)
+        else:
+            seq.append('?' + ln[:48])
+            i += 1
+    return seq
+
+
+def judge_1090(script, obs):
+    seq = parse_echo(script, obs.get('stdout', []))
+    named = [s for s in seq if not s.startswith('?')]
+    unknown = [s for s in seq if s.startswith('?')]
+    probs = []
+    cls = None
+    if obs.get('panic'):
+        p = obs['panic']
+        probs.append('panic=%s:%s' % (p['file'].split('/')[-1], p['msg'].split(' but ')[0]))
+        cls = 'panic@%s:%d' % (p['file'].split('/')[-1], p['line'])
+    if not obs.get('alive_at_end'):
+        probs.append('dead exit=%s' % obs.get('exit_code'))
+        cls = cls or '1090-dead'
+    if obs.get('stalled_at') is not None:
+        probs.append('sentinel-not-echoed')
+        cls = cls or '1090-stalled'
+    want = script['expect_echo']
+    if named != want:
+        lost = [w for w in want if w not in named]
+        dup = sorted(set(n for n in named if named.count(n) > 1))
+        kind = 'lost' if lost else ('dup' if dup else 'order')
+        if cls is None:
+            cls = '1090-line-' + kind
+        probs.append('echo=' + ','.join(named))
+    elif unknown and not script.get('allow_unknown'):
+        probs.append('extra-echo')
+        cls = cls or '1090-extra-echo'
+    outcome_sig = 'echo=%s|unk=%d|%s' % (','.join(named), len(unknown), 'alive' if obs.get('alive_at_end') else 'dead')
+    summary = {'events': len(script['steps']), 'screens': [], 'outcome': outcome_sig}
+    if not probs:
+        return None, summary
+    if unknown and not script.get('allow_unknown'):
+        probs.append('unk=' + ';'.join(u[1:29] for u in unknown[:3]))
+    observed = '|'.join(probs)
+    return {'class': 'C16/' + cls, 'observed': observed, 'expected': script['expected'],
+            'detail': {'echo_sequence': seq[:20], 'stderr': obs.get('stderr_tail', '')[-200:]}}, summary
+
+
+def _table_sig(t):
+    if t is None:
+        return 'no-table'
+    return 'n=%s/%s msgs=%s' % (t['tab_n'], t['title_n'], ','.join('%s:%s' % kv for kv in sorted(t['msgs'].items())))
+
+
+def _read_table(snap):
+    if not snap:
+        return None
+    p = e4screen.parse_airplanes(snap['lines'])
+    if p is None:
+        return None
+    return {'tab_n': e4screen.tab_title_count(snap['lines']), 'title_n': p['title_n'],
+            'msgs': {r['icao']: r['msgs'] for r in p['rows']}}
+
+
+def _table_matches(t, alts):
+    if t is None:
+        return False
+    for e in alts:
+        if t['tab_n'] == e['n'] and t['title_n'] == e['n'] and t['msgs'] == {k: str(v) for k, v in e['msgs'].items()}:
+            return True
+    return False
+
+
+def judge_radar(script, obs):
+    probs = []
+    cls = None
+    if obs.get('panic'):
+        p = obs['panic']
+        probs.append('panic=%s:%s' % (p['file'].split('/')[-1], p['msg'].split(' but ')[0]))
+        cls = 'panic@%s:%d' % (p['file'].split('/')[-1], p['line'])
+    disc = script.get('disconnect')
+    died_early = obs.get('died_at') is not None and not obs.get('quit_sent')
+    if died_early and not (disc == 'exit' and script['steps'][min(obs['died_at'], len(script['steps']) - 1)]['op'] == 'wait_exit'):
+        probs.append('exit-early=%s' % obs.get('exit_code'))
+        cls = cls or 'radar-exit-early'
+    elif obs.get('frozen_at') is not None:
+        st = script['steps'][obs['frozen_at']]
+        probs.append('no-reconnect' if st['op'] == 'accept' else 'no-heartbeat')
+        cls = cls or ('radar-no-reconnect' if st['op'] == 'accept' else 'radar-frozen')
+    elif obs.get('killed'):
+        probs.append('no-exit')
+        cls = cls or 'radar-no-exit'
+    elif obs.get('exit_code') != 0:
+        probs.append('exit=%s' % obs.get('exit_code'))
+        cls = cls or 'radar-exit-status'
+    if not obs.get('termios_restored'):
+        probs.append('termios=raw')
+        cls = cls or 'radar-termios'
+    if obs.get('mouse_on'):
+        probs.append('mouse-left-on')
+    exp = script['expect_tables']
+    sigs = []
+    for name in ('table', 'table2'):
+        if name not in exp:
+            continue
+        snap = obs.get('snaps', {}).get(name)
+        if snap is None:
+            continue   # the run ended before the snapshot (already a problem above)
+        t = _read_table(snap)
+        sigs.append(_table_sig(t))
+        if not _table_matches(t, exp[name]):
+            probs.append('%s:%s' % (name, _table_sig(t)))
+            cls = cls or ('radar-line-lost' if name == 'table' else 'radar-reconnect-line-lost')
+    outcome = '|'.join(sigs) + '|exit=%s' % obs.get('exit_code')
+    summary = {'events': len(script['steps']), 'screens': [], 'outcome': outcome}
+    if not probs:
+        return None, summary
+    return {'class': 'C16/' + cls, 'observed': '|'.join(probs), 'expected': script['expected'],
+            'detail': {'tail': obs.get('tail', '')[-200:], 'notes': obs.get('notes')}}, summary
+
+
+e4lib.register_judge('c16_1090', judge_1090)
+e4lib.register_judge('c16_radar', judge_radar)
+
+
+# ---------------------------------------------------------------------------------------------
+def reference_blocks(fd):
+    """run the real 1090 once on each valid line alone -> rendering block per payload (self-differential)"""
+    import e4drv
+    steps = []
+    lines = fd.L + [fd.sent]
+    pay = fd.payload + [fd.sent_payload]
+    for i, l in enumerate(lines):
+        if i:
+            steps.append({'op': 'gap'})
+        steps.append({'op': 'send', 'hex': hexs(l)})
+    steps += [{'op': 'gap'}, {'op': 'send', 'hex': hexs(b'*5dab3d17d4ba29;\n')}, {'op': 'expect', 'line': '5dab3d17d4ba29', 'after': 1}]
+    obs = e4drv.run_1090({'binary': '1090', 'argv': [], 'steps': steps})
+    out = obs['stdout']
+    idx = []
+    for p in pay + ['5dab3d17d4ba29']:
+        if out.count(p) != 1:
+            raise e4lib.Machinery('1090 reference run: payload %s echoed %d times: %r' % (p, out.count(p), out[:40]))
+        idx.append(out.index(p))
+    if idx != sorted(idx):
+        raise e4lib.Machinery('1090 reference run: echoes out of order')
+    fd.blocks = {}
+    fd.block_len = {}
+    for k, p in enumerate(pay):
+        blk = out[idx[k] + 1:idx[k + 1]]
+        if not blk:
+            raise e4lib.Machinery('1090 reference run: no rendering for %s' % p)
+        fd.blocks[p] = blk
+        fd.block_len[p] = 1 + len(blk)
+
+
+def split_at(data, cuts):
+    segs = []
+    prev = 0
+    for c in cuts:
+        segs.append(data[prev:c])
+        prev = c
+    segs.append(data[prev:])
+    return segs
+
+
+def enumerate_scripts(tier, fd):
+    out = []
+    parts = {}
+    full_tbl = [table_expect(fd.feed)]
+    maxcuts = 1 if tier == 'quick' else 2
+    n0 = len(out)
+    for k in range(0, maxcuts + 1):
+        for cuts in itertools.combinations(range(1, len(fd.feed)), k):
+            segs = split_at(fd.feed, cuts)
+            ck = 'cuts=%s' % (','.join(map(str, cuts)) or 'none')
+            out.append(s1090('1090|%s|gap' % ck, segs, ['L1', 'L2', 'L3'], fd))
+            out.append(sradar('radar|%s|gap' % ck, segs, segs[-1].count(b'\n'), {'table': full_tbl}))
+    parts['cut sets (<=%d cuts over %d byte positions, timeout gap at every cut) x 2 clients' % (maxcuts, len(fd.feed) - 1)] = len(out) - n0
+    # sanity class: segmented but not delayed (two sends back to back, no read timeout in between)
+    n0 = len(out)
+    stride_pos = list(range(1, len(fd.feed))) if tier != 'quick' else [1, 2, 16, 29, 30, 31, 32, 47, 61, 62, 91, 92]
+    for c in stride_pos:
+        segs = split_at(fd.feed, (c,))
+        out.append(s1090('1090|cuts=%d|nogap' % c, segs, ['L1', 'L2', 'L3'], fd, nogap=True))
+        out.append(sradar('radar|cuts=%d|nogap' % c, segs, 3, {'table': full_tbl}, nogap=True))
+    parts['single cut without delay (two back-to-back sends) at %d positions x 2 clients' % len(stride_pos)] = len(out) - n0
+
+    n0 = len(out)
+    for name, mb, amb in fd.malformed():
+        for j in range(4):
+            pre = b''.join(fd.L[:j])
+            post = b''.join(fd.L[j:])
+            alts = [table_expect(pre + mb + post)]
+            if amb is not None:
+                a2 = table_expect(pre + amb + post)
+                if a2 not in alts:
+                    alts.append(a2)
+                a3 = table_expect(pre + post)
+                if a3 not in alts:
+                    alts.append(a3)
+            # timing A: own segment, gap before and after
+            segsA = [s for s in (pre, mb, post) if s]
+            out.append(s1090('1090|mal=%s@%d|own-segment' % (name, j), segsA, ['L1', 'L2', 'L3'], fd, allow_unknown=True))
+            out.append(sradar('radar|mal=%s@%d|own-segment' % (name, j), segsA, segsA[-1].count(b'\n'), {'table': alts}))
+            # timing B: one send with everything (busy traffic, no read timeout anywhere)
+            one = pre + mb + post
+            out.append(s1090('1090|mal=%s@%d|same-send' % (name, j), [one], ['L1', 'L2', 'L3'], fd, allow_unknown=True))
+            out.append(sradar('radar|mal=%s@%d|same-send' % (name, j), [one], one.count(b'\n'), {'table': alts}))
+    parts['malformed alphabet(%d) x 4 positions x 2 timings x 2 clients' % len(fd.malformed())] = len(out) - n0
+
+    n0 = len(out)
+    partial_lens = [1, 2, 3, 30]
+    points = [(k, 0, False) for k in range(4)] + [(k, pl, g) for k in range(3) for pl in partial_lens for g in (False, True)]
+    for k, pl, g in points:
+        done = b''.join(fd.L[:k])
+        part = fd.L[k][:pl] if pl else b''
+        rest = b''.join(fd.L[k:])
+        name = 'disc=k%d+%d%s' % (k, pl, ('+gap' if g else '') if pl else '')
+        tbl_before = [table_expect(done)]
+        out.append(sradar('radar|%s|noretry' % name, [done] if done else [], k, {'table': tbl_before}, disconnect='exit',
+                          partial=part, partial_gap=g))
+        out.append(sradar('radar|%s|retry' % name, [done] if done else [], k, {'table': tbl_before, 'table2': full_tbl},
+                          retry=True, disconnect='retry', after=rest, n_after=3 - k, partial=part, partial_gap=g))
+        if done + part:
+            out.append(s1090('1090|%s' % name, [done + part], ['L1', 'L2', 'L3'][:k], fd, close=True, allow_unknown=True,
+                             close_gap=g))
+    parts['disconnect points (after k=0..3 lines; mid-line after k=0..2 lines + {1,2,3,30} bytes, close at once / after a read timeout) x retry off/on (radar), 1090 EOF'] = len(out) - n0
+    return out, parts
+
+
+ASSUMPTIONS = [
+    'black box: the real 1090 (pipes) and radar (pty) binaries against a fake TCP server on 127.0.0.1',
+    'timeout gap = >= 3 radar heartbeats with nothing sent (each idle iteration contains one 50 ms read timeout) / 250 ms for 1090 (5x the read timeout, as specified)',
+    'radar table oracle = vh feed2table (real decoder + real tracker) on the feed bytes; CRLF line: processed or skipped both accepted',
+    '1090 renderings are compared with a reference run of 1090 itself on each line alone (self-differential)',
+    '1090 "alive after EOF" is observed 300 ms after the close (a later crash would be missed, never invented)',
+    'a violation is reported only if two further replays of the same script give the same observation',
+    'outside the bound: >2 cuts, gaps shorter than the read timeout other than 0, feeds other than the 3-line feed, IPv6',
+]
+
+
 def run(tier):
-    raise NotImplementedError
+    fd = Feed()
+    reference_blocks(fd)
+    scripts, parts = enumerate_scripts(tier, fd)
+    # the radar no-gap control is the cuts=none script (single send)
+    ex = e4lib.Explorer('C16', tier)
+    try:
+        ex.run(scripts)
+        cov = {'exhaustive': not ex.machinery,
+               'bound': {'feed_bytes': len(fd.feed), 'feed': [l.decode().strip() for l in fd.L], 'parts': parts,
+                         'malformed_alphabet': [m[0] for m in fd.malformed()]},
+               'rule': 'one script per (client, schedule): cut set / malformed letter x position x timing / disconnect point x retry; '
+                       'distinct = distinct script key; non-trivial = the subject ran to its oracle (sentinel echoed, table read, or process death observed)',
+               'caps_hit': []}
+        return ex.report('fault_enumeration', cov, ASSUMPTIONS)
+    finally:
+        ex.close()
